@@ -163,10 +163,26 @@ def coq_build(targets=None, timeout=3000):
         return False, None, txt[-2000:]
 
 
-def forbidden_scan():
-    """no Admitted / admit / Axiom / Parameter / guard switches anywhere in the development"""
+def coq_closure(roots):
+    """transitive closure of `From BX/BXGen Require ...` starting from files given relative to coq/"""
+    seen, todo = set(), list(roots)
+    while todo:
+        f = todo.pop()
+        if f in seen or not os.path.exists(os.path.join(COQ, f)):
+            continue
+        seen.add(f)
+        txt = open(os.path.join(COQ, f)).read()
+        for m in re.finditer(r"From\s+(BX|BXGen)\s+Require\s+(?:Import|Export)?\s*([^.]*(?:\.[A-Za-z_][^.\s]*)*)\.", txt):
+            root = "theories" if m.group(1) == "BX" else "gen"
+            for mod in re.findall(r"[A-Za-z_][A-Za-z0-9_.']*", m.group(2)):
+                todo.append(os.path.join(root, mod.replace(".", "/") + ".v"))
+    return sorted(seen)
+
+
+def forbidden_scan(files=None):
+    """no Admitted / admit / Axiom / Parameter / guard switches in the given files (default: whole development)"""
     hits = []
-    for f in coq_vfiles():
+    for f in (files if files is not None else coq_vfiles()):
         txt = open(os.path.join(COQ, f)).read()
         txt_nc = re.sub(r"\(\*.*?\*\)", lambda m: " " * len(m.group(0)), txt, flags=re.S)
         for i, line in enumerate(txt_nc.splitlines(), 1):
@@ -336,7 +352,8 @@ class Ctx:
         self.extract_ok = ok
         if not ok:
             self.broken("translator", msg)
-        hits = forbidden_scan()
+        roots = ["theories/Properties/%s.v" % self.pid] + ["theories/%s.v" % t for t in targets] + ["theories/Model/%s.v" % m for m in model_targets]
+        hits = forbidden_scan(coq_closure(roots))
         if hits:
             self.broken("forbidden-construct", "\n".join(hits[:10]))
         mt = ["theories/Model/%s.vo" % m for m in model_targets]
